@@ -15,7 +15,7 @@ rsync -a --exclude target --exclude .git /repo/ "$S/repo/"
 if [ $run_tests = 1 ]; then
   ( cd "$S/repo" && CARGO_TARGET_DIR="$S/target" cargo test --workspace --no-fail-fast --offline 2>&1 | grep -E "^test result|FAILED|failed" | head -8 )
 fi
-export VERIF_REPO="$S/repo" VERIF_OUT="$S/out"
+export VERIF_REPO="$S/repo" VERIF_OUT="$S/out" VERIF_TARGET="$S/target-sim"
 mkdir -p "$S/out/evidence" "$S/out/replays"
 overall=0
 for spec in "$@"; do
@@ -27,6 +27,4 @@ for spec in "$@"; do
   [ $rc -ne 0 ] && overall=1
   if [ -n "${MUTANT_KEEP:-}" ]; then mkdir -p "$MUTANT_KEEP"; cp "$S/out/replays/"*-min.json "$S/out/replays/"*.shuttle "$MUTANT_KEEP/" 2>/dev/null; fi
 done
-# leave the engines built against the real tree again
-( cd "$VERIF/sim" && cargo build --release --offline 2>/dev/null )
 exit $overall
